@@ -347,19 +347,32 @@ theorem timedelta_policy_exact (us : Int) : makeRetention (.timedelta us) = .ok 
 denotes; a string that is no duration is rejected with ValueError at `add()` -/
 theorem duration_string_policy (s : Str) :
     makeRetention (.str s) =
-      match Rotation.parseDuration s with
+      match Dur.parseDuration s with
       | .ok (some us) => .ok (.policy (.age us))
       | .ok none => .error .valueError
       | .error e => .error e := by
   simp only [makeRetention]
-  cases Rotation.parseDuration s with
+  cases Dur.parseDuration s with
   | error e => rfl
   | ok o => cases o <;> rfl
+
+/-- the generated unit table gives the calendar-independent units their exact length: every
+spelling of microsecond, millisecond, second, minute, hour, day, week (in microseconds) -/
+theorem duration_units_denote :
+    (["us", "microsecond", "microseconds"].all fun u => Dur.unitOf u.toList Gen.durationUnits == some 1) ∧
+    (["ms", "millisecond", "milliseconds"].all fun u => Dur.unitOf u.toList Gen.durationUnits == some 1000) ∧
+    (["s", "sec", "secs", "second", "seconds", "S", "Seconds"].all fun u =>
+      Dur.unitOf u.toList Gen.durationUnits == some 1000000) ∧
+    (["min", "mins", "minute", "minutes"].all fun u => Dur.unitOf u.toList Gen.durationUnits == some (60 * 1000000)) ∧
+    (["h", "hour", "hours"].all fun u => Dur.unitOf u.toList Gen.durationUnits == some (3600 * 1000000)) ∧
+    (["d", "day", "days"].all fun u => Dur.unitOf u.toList Gen.durationUnits == some (86400 * 1000000)) ∧
+    (["w", "week", "weeks"].all fun u => Dur.unitOf u.toList Gen.durationUnits == some (7 * 86400 * 1000000)) := by
+  decide
 
 /-- whatever the spelling, a sink configured with a duration behaves as the age policy of that
 exact duration -/
 theorem configured_duration_exact (path s : Str) (us now : Int) (entries : List Entry)
-    (h : Rotation.parseDuration s = .ok (some us)) :
+    (h : Dur.parseDuration s = .ok (some us)) :
     retentionConfigured path (.str s) now entries = retentionOf path (.age us) now entries ∧
     retentionConfigured path (.timedelta us) now entries = retentionOf path (.age us) now entries := by
   unfold retentionConfigured
@@ -371,7 +384,7 @@ removed iff it is a selected regular family file modified at or before `now − 
 duration the string denotes – so every selected file with `mtime > now − d` survives -/
 theorem configured_duration_keeps_exactly_within (path s : Str) (us now : Int) (entries del : List Entry)
     (ps : List Str) (hps : makeGlobPatterns path = .ok ps)
-    (h : Rotation.parseDuration s = .ok (some us))
+    (h : Dur.parseDuration s = .ok (some us))
     (hr : retentionConfigured path (.str s) now entries = .ok del) (e : Entry) :
     e ∈ del ↔ (e ∈ selectLogs ps entries ∧ e.mtime ≤ now - us) := by
   rw [(configured_duration_exact path s us now entries h).1] at hr
@@ -426,9 +439,9 @@ example : (retentionAge [⟨"a".toList, true, 5⟩, ⟨"b".toList, true, 7⟩] 1
 example : terminate ⟨true, true, true, false, true⟩ true = [.close, .rename, .retention, .create] := by decide
 example : terminate ⟨true, true, true, false, true⟩ false = [.close] := by decide
 
-example : Rotation.parseDuration "2 s 700 ms".toList = .ok (some 2700000) := by rfl
-example : Rotation.parseDuration "2.9 s".toList = .ok (some 2900000) := by rfl
-example : Rotation.parseDuration "900 ms".toList = .ok (some 900000) := by rfl
+example : Dur.parseDuration "2 s 700 ms".toList = .ok (some 2700000) := by rfl
+example : Dur.parseDuration "2.9 s".toList = .ok (some 2900000) := by rfl
+example : Dur.parseDuration "900 ms".toList = .ok (some 900000) := by rfl
 /-- a file aged 2.1 s survives `retention="2 s 700 ms"`, one aged 3.5 s does not -/
 example : (retentionConfigured "a.log".toList (.str "2 s 700 ms".toList) 10000000
       [⟨"a.log.1".toList, true, 10000000 - 2100000⟩, ⟨"a.log.2".toList, true, 10000000 - 3500000⟩]).map
